@@ -1,15 +1,45 @@
 #!/bin/bash
-# evaluates every seeded change under /verif/seeded against the checks named in its meta (or given list)
+# evaluates every seeded change under /verif/seeded (or the ids given as arguments) against the
+# checks named in its meta.json; writes seeded/<id>/result.json and seeded/RESULTS.md
 cd /verif
-for d in seeded/*/; do
-  name=$(basename $d)
+ids="$@"
+[ -z "$ids" ] && ids=$(ls seeded | grep -v RESULTS)
+for name in $ids; do
+  d=seeded/$name
+  [ -f $d/patch.diff ] || continue
   prop=${name%%-*}
   checks=$(python3 -c "
 import json,sys,os
 p='$d/meta.json'
 print(' '.join(json.load(open(p)).get('checks',['$prop'])) if os.path.exists(p) else '$prop')")
-  echo "=== $name"
-  timeout 900 tools/mutant_eval.sh /verif/$d/patch.diff $checks 2>&1 | cut -c1-300
+  echo "=== $name ($checks)"
+  out=$(timeout 2400 tools/mutant_eval.sh /verif/$d/patch.diff $checks 2>&1)
+  echo "$out" | cut -c1-300
   git -C /repo checkout -- . 2>/dev/null
+  python3 - "$d" <<PY
+import json,sys,re
+d=sys.argv[1]
+out='''$(echo "$out" | sed "s/'''/ /g" | cut -c1-600)'''
+res={"applied": "APPLY-FAILED" not in out and "repo not clean" not in out, "checks": {}}
+for l in out.split("\n"):
+    m=re.match(r"check=(\S+) rc=(\d+) violations=(\d+) :: (.*)", l)
+    if m:
+        sig=re.search(r"sig=(\S+)", m.group(4))
+        res["checks"][m.group(1)]={"rc": int(m.group(2)), "violations": int(m.group(3)), "first": (sig.group(1) if sig else m.group(4)[:120])}
+res["detected_by"]=[c for c,v in res["checks"].items() if v["rc"]==1 and v["violations"]>0]
+json.dump(res, open(d+"/result.json","w"), indent=1)
+PY
 done
+python3 - <<'PY'
+import json,os,glob
+rows=[]
+for d in sorted(glob.glob('/verif/seeded/*/')):
+    n=os.path.basename(d.rstrip('/'))
+    if not os.path.exists(d+'result.json'): continue
+    r=json.load(open(d+'result.json'))
+    m=json.load(open(d+'meta.json')) if os.path.exists(d+'meta.json') else {}
+    det=", ".join("%s (%s)"%(c, r["checks"][c]["first"]) for c in r["detected_by"]) or ("NOT APPLICABLE TO CURRENT TREE" if not r["applied"] else "**missed**")
+    rows.append("| %s | %s | %s |" % (n, (m.get("needs_to_manifest") or "")[:110].replace("|","/"), det[:200].replace("|","/")))
+open('/verif/seeded/RESULTS.md','w').write("# seeded changes x checks (written by tools/mutant_eval_all.sh)\n\n| change | needs | detected by (first signature) |\n|---|---|---|\n"+"\n".join(rows)+"\n")
+PY
 cd /verif/harness && cargo build >/dev/null 2>&1
